@@ -44,6 +44,8 @@ structure World where
   matchRedirect : String → String → Option Match
   hasHandler : String → Bool
   classify : List String → Classification
+  /-- the handler module sets `RUNS_SCRIPTS` (an interpreter: `bash x.sh`, `python x.py`) -/
+  runsScripts : String → Bool
   description : List String → String
   simpleSafe : String → Bool
   wrapper : String → Bool
@@ -130,12 +132,19 @@ def checkTargets (w : World) (cwd desc : String) : List String → Option Decisi
         | .allow => checkTargets w cwd desc ts
       | none => some ⟨.ask, desc⟩
 
+/-- `runs_inner`: the handler hands the arguments on to another program (a `delegate`), or is an
+    interpreter given a script – then a trailing `-h` is not a request for this tool's help -/
+def runsInner (w : World) (tokens : List String) : Bool :=
+  let base := tokens.headD ""
+  w.hasHandler base &&
+    ((w.classify tokens).action == "delegate" || (decide (tokens.length > 2) && w.runsScripts base))
+
 /-- steps 3–6 of `_analyze_simple_command` (no rule matched, not a wrapper form) -/
 def builtinVerdict (w : World) (rec : Rec) (helpW helpF2 helpFL : List String)
     (tokens : List String) (cwd : String) (remote : Bool) : Decision :=
   let base := tokens.headD ""
   if w.simpleSafe base then ⟨.allow, base⟩
-  else if isVersionOrHelp helpW helpF2 helpFL tokens then ⟨.allow, base ++ " --help"⟩
+  else if isVersionOrHelp helpW helpF2 helpFL tokens && !runsInner w tokens then ⟨.allow, base ++ " --help"⟩
   else if w.hasHandler base then
     let result := w.classify tokens
     let desc := Py.orElse result.description (w.description tokens)
